@@ -24,7 +24,7 @@ VERIF = os.path.dirname(HERE)
 sys.path.insert(0, VERIF)
 REPO = os.environ.get("VERIF_REPO", "/repo")
 PY = sys.executable
-OUTFILE = os.path.join(VERIF, "selftest", "kill_matrix.json")
+OUTFILE = os.environ.get("VERIF_KM_OUT") or os.path.join(VERIF, "selftest", "kill_matrix.json")
 ALL_PROPS = [f"C{i:02d}" for i in range(1, 21)]
 
 
